@@ -36,21 +36,12 @@ type waitFn struct {
 	inner   *ssa.Function // the function that contains the Cond.Wait loop (fn itself, or a shared helper)
 	site    ssa.CallInstruction
 	bind    map[*ssa.Parameter]*ssa.MakeClosure // completion test passed to a shared helper
-	kind    string // shares | commitments | reveals
+	kind    string                              // shares | commitments | reveals
 	waitPos token.Pos
 }
 
 func constOf(m *Module, pkg, name string) (int64, bool) {
-	p := m.Pkg(pkg)
-	if p == nil {
-		return 0, false
-	}
-	o, ok := p.Types.Scope().Lookup(name).(*types.Const)
-	if !ok {
-		return 0, false
-	}
-	v, ok := constIntVal(o)
-	return v, ok
+	return m.ConstA(pkg, name)
 }
 
 func constIntVal(o *types.Const) (int64, bool) {
@@ -268,14 +259,14 @@ func checkC05(c *Ctx) {
 	c.notDecided = "algebraic usability of the resulting shares; enumeration of victim sets and strategies"
 	c.Assume("sync.Cond semantics; reliable broadcast delivers identical commit/reveal values to all honest parties (C02)")
 	const O1, O2, N1, G1, G2, T1, G3, P1 = "C05.O1", "C05.O2", "C05.N1", "C05.G1", "C05.G2", "C05.T1", "C05.G3", "C05.P1"
-	c.Rule(O1, "waits return an error on expiry and every caller up to KeyGen honours it", 12)
-	c.Rule(O2, "reveal sent only after a successful commitment wait and after the own commitment", 2)
-	c.Rule(N1, "wait thresholds: shares n−1, commitments n−1, reveals n", 6)
-	c.Rule(G1, "commitment check dominates success; same-key comparison; mismatch aborts", 6)
-	c.Rule(G2, "t-subset cross-check result dominates success", 4)
-	c.Rule(T1, "commit and reveal are broadcast-class on both sides", 4)
-	c.Rule(G3, "first value per peer wins", 6)
-	c.Rule(P1, "PS: decoded vectors length-validated before being stored", 2)
+	c.Rule(O1, "waits return an error on expiry and every caller up to KeyGen honours it", 6)
+	c.Rule(O2, "reveal sent only after a successful commitment wait and after the own commitment", 1)
+	c.Rule(N1, "wait thresholds: shares n−1, commitments n−1, reveals n", 3)
+	c.Rule(G1, "commitment check dominates success; same-key comparison; mismatch aborts", 3)
+	c.Rule(G2, "t-subset cross-check result dominates success", 2)
+	c.Rule(T1, "commit and reveal are broadcast-class on both sides", 2)
+	c.Rule(G3, "first value per peer wins", 3)
+	c.Rule(P1, "PS: decoded vectors length-validated before being stored", 1)
 	for _, b := range builtinBackends {
 		d := buildDKGModel(c, b)
 		if d == nil {
@@ -708,6 +699,7 @@ func onlyLoopGuards(in ssa.Instruction) bool {
 func (d *dkgModel) rulePSLengths(c *Ctx, rule string) {
 	m := d.m
 	msgBytes := strip(d.onMsg.Params[1])
+	fPPn, fPPgs := m.Field(d.b.pkg, "PP", "n"), m.Field(d.b.pkg, "PP", "gs")
 	for _, f := range []*types.Var{d.fShares, d.fPKs} {
 		for _, mu := range mapUpdatesOfField(deepFuncs(d.onMsg), f) {
 			stored := d.sl.Slice(mu.Value)
@@ -721,7 +713,7 @@ func (d *dkgModel) rulePSLengths(c *Ctx, rule string) {
 				}
 				hasN := false
 				for t, k := range l.Terms {
-					if k != 0 && (strings.HasSuffix(t, ".n") || strings.HasPrefix(t, "len(field ps.gs")) {
+					if k != 0 && ((fPPn != nil && t == "field "+fieldKey(fPPn)) || (fPPgs != nil && t == "len(field "+fieldKey(fPPgs)+")")) {
 						hasN = true
 					}
 				}
